@@ -383,20 +383,32 @@ impl IsoDate {
         // 1. Assert: year, month, day, years, months, weeks, and days are integers.
         // 2. Assert: overflow is either "constrain" or "reject".
         // 3. Let intermediate be ! BalanceISOYearMonth(year + years, month + months).
-        let intermediate = balance_iso_year_month(
-            self.year + duration.years.as_date_value()?,
-            i32::from(self.month) + duration.months.as_date_value()?,
-        );
+        // NOTE: computed in `i64`, as the duration fields may be as large as `i32::MAX`.
+        let years = i64::from(self.year) + i64::from(duration.years.as_date_value()?);
+        let months = i64::from(self.month) + i64::from(duration.months.as_date_value()?);
+        let year = years + (months - 1).div_euclid(12);
+        let month = (months - 1).rem_euclid(12) + 1;
+        if !(-271_821i64..=275_760).contains(&year) {
+            return Err(
+                TemporalError::range().with_message("Date is not within ISO date time limits.")
+            );
+        }
 
         // 4. Let intermediate be ? RegulateISODate(intermediate.[[Year]], intermediate.[[Month]], day, overflow).
-        let intermediate =
-            Self::new_with_overflow(intermediate.0, intermediate.1, self.day, overflow)?;
+        let intermediate = Self::new_with_overflow(year as i32, month as u8, self.day, overflow)?;
 
         // 5. Set days to days + 7 × weeks.
-        let additional_days =
-            duration.days.as_date_value()? + (duration.weeks.as_date_value()? * 7);
+        let additional_days = i64::from(duration.days.as_date_value()?)
+            + i64::from(duration.weeks.as_date_value()?) * 7;
         // 6. Let d be intermediate.[[Day]] + days.
-        let intermediate_days = i32::from(intermediate.day) + additional_days;
+        let intermediate_days = i64::from(intermediate.day) + additional_days;
+        // The valid ISO range is about 2 * 10^8 days wide, anything further away cannot land inside of it.
+        if intermediate_days.abs() > 2 * i64::from(MAX_EPOCH_DAYS) + 366 {
+            return Err(
+                TemporalError::range().with_message("Date is not within ISO date time limits.")
+            );
+        }
+        let intermediate_days = intermediate_days as i32;
 
         // 7. Return BalanceISODate(intermediate.[[Year]], intermediate.[[Month]], d).
         Ok(Self::balance(
